@@ -52,7 +52,11 @@ def facts_at(fn, prog, bb, tb=None):
                 out.append((cond, True, d))
         else:
             if len(vals) == 1 and other != s:
-                out.append((("op", "Eq", (cond, const(vals[0]))), True, d))
+                out.append((mk("Eq", cond, const(vals[0])), True, d))
+            elif not vals and other == s:
+                # the `otherwise` edge of an integer switch: the discriminant equals none of the listed values
+                for v, _ in arms:
+                    out.append((mk("Eq", cond, const(v)), False, d))
     return out
 
 
